@@ -46,6 +46,8 @@ def num(x):
 def classify(cfg):
     """model class of a configuration, for matching known findings"""
     n = cfg["name"]
+    if n.startswith("fn_pcsaft"):
+        return "Functional(PcSaft)"
     if n.startswith("uv_bh"):
         return "UVTheory(BarkerHenderson)"
     if n.startswith("uv_"):
